@@ -60,6 +60,31 @@ def structures(ctx):
     ctx.require(len(combos) == len(set(combos)), 'config.config:WALLET_KEY_STRUCTURES', '(witness_type, multisig) does not select a unique row: %s' % sorted(combos), None)
 
 
+SLIP44 = {'bitcoin': 0, 'testnet': 1, 'testnet4': 1, 'signet': 1, 'regtest': 1, 'litecoin': 2, 'litecoin_legacy': 2, 'litecoin_testnet': 1, 'dogecoin': 3, 'dogecoin_testnet': 1}
+
+
+@PROP.obligation('C09.cointypes')
+def cointypes(ctx):
+    """networks.json: the BIP44 coin_type of every public network is its SLIP-0044 number (bitcoin 0, all test networks 1, litecoin 2,
+    dogecoin 3): it is the coin_type' level of every wallet path."""
+    import json
+    import os
+    path = os.path.join(ctx.repo.root, 'bitcoinlib', 'data', 'networks.json')
+    try:
+        data = json.load(open(path))
+    except Exception as e:
+        ctx.undecided('networks.json unreadable: %r' % e)
+    n = 0
+    for net, want in SLIP44.items():
+        if net not in data:
+            ctx.undecided('network %s vanished from networks.json' % net)
+        n += 1
+        got = data[net].get('bip44_cointype')
+        ctx.require(got == want, 'bitcoinlib/data/networks.json', 'network %s: bip44_cointype is %s, SLIP-0044 says %s' % (net, got, want), None,
+                    'wallet keys of that network lie at another coin_type level than in every other wallet')
+    ctx.saw('%d networks compared with SLIP-0044' % n)
+
+
 @PROP.obligation('C09.path-expand', canaries=[
     mut.replace_expr('keys', 'path_expand', "path_template[i][-1:] == \"'\"", 'False', 'template hardening ignored'),
     mut.replace_expr('keys', 'path_expand', 'account_id', 'change', 'account level filled with the change flag'),
